@@ -180,6 +180,15 @@ theorem tilt_order_irrelevant (order : ℕ) (kx ky dz wl ms : ℝ) (t₁ t₂ : 
     propagator order kx ky dz wl ms [t₁, t₂] = propagator order kx ky dz wl ms [t₂, t₁] := by
   simp only [propagator, List.foldl_cons, List.foldl_nil]; ring
 
+/-- general form: the propagator depends on the multiset of tilts only (the code walks the ensemble axes in reverse; any order gives
+the same array) -/
+theorem tilt_perm_irrelevant (order : ℕ) (kx ky dz wl ms : ℝ) (t₁ t₂ : List (ℝ × ℝ)) (h : t₁.Perm t₂) :
+    propagator order kx ky dz wl ms t₁ = propagator order kx ky dz wl ms t₂ := by
+  rw [propagator_eq, propagator_eq]
+  congr 1
+  unfold tiltProduct
+  exact (h.map _).prod_eq
+
 /-- The tilt never changes the intensity of the propagated wave. -/
 theorem tilt_preserves_energy [Nonempty ι] (P : FourierPair ι) (g : Freqs ι) (order : ℕ) (dz wl tx ty : ℝ)
     (ψ : ι → ℂ) :
@@ -256,6 +265,5 @@ example : ∃ g : Freqs (Fin 4), 0 < g.maxSampling ∧
   · simp
   all_goals (exfalso; apply hk; simp [dft4, F4lin, F4fun])
 
-example : (1 : ℝ) ≠ 0 := one_ne_zero
 
 end AbtemVerif.Props.C39
